@@ -172,6 +172,16 @@ func (ws *wstate) classify(app *fiber.App, ci int, tbl []entry, mi, pi int, ref 
 		if ref.reply {
 			return fmt.Sprintf("reply-status got=%d", o.status), "a handler replied but the status is not 200"
 		}
+		if ref.no405 {
+			// which kind of entry matched last before the chain ran out (the 'endpoint matched' memory is per request:
+			// what matched AFTER the endpoint must not matter)
+			lastRun := "endpoint"
+			if kindIsUse(tbl[ref.trace[ref.n-1]].kind) {
+				lastRun = "use"
+			}
+			return fmt.Sprintf("end-of-chain got=405 although-an-endpoint-of-the-request-method-ran last-match=%s override=%s", lastRun, ovNamesShort[ov]),
+				"an endpoint matching the request's (final) method and path ran and called Next, nothing replied: the reply is 405 + Allow although 405 is the reply 'when no endpoint matches' (expected: not 405, fiber's own answer is 404 Cannot METHOD path)"
+		}
 		// which methods are missing / extra in the Allow set, and is a bucket miss the reason?
 		obsAllow := o.allow
 		if o.status != 405 {
